@@ -581,6 +581,7 @@ class VQueue:
                 raise _real_queue.Full
         self.queue.append(item)
         self.unfinished_tasks += 1
+        s.point('queue.put.done')      # a consumer woken by this put may run before the producer continues
 
     def get(self, block=True, timeout=None):
         s = S
